@@ -235,7 +235,9 @@ type c19Scenario struct {
 func c19Scenarios(tier string) []c19Scenario {
 	const U2 = "http://example.com/other"
 	var scs []c19Scenario
-	get := func(u, a, origin, vary, val string) c19Ev { return c19Ev{Method: "GET", URL: u, A: a, Origin: origin, Vary: vary, Val: val} }
+	get := func(u, a, origin, vary, val string) c19Ev {
+		return c19Ev{Method: "GET", URL: u, A: a, Origin: origin, Vary: vary, Val: val}
+	}
 	post := func(u string, ok bool) c19Ev {
 		if ok {
 			return c19Ev{Method: "POST", URL: u, Origin: "post200"}
@@ -301,6 +303,16 @@ func c19Scenarios(tier string) []c19Scenario {
 		}
 		evs = append(evs, post(U, true))
 		scs = append(scs, c19Scenario{fmt.Sprintf("%s decorating upstream", og), evs})
+	}
+	// a URI whose query carries raw bytes >= 0x80 (valid UTF-8 text with a 0x80 byte in it)
+	{
+		const U3 = "http://example.com/r?q=\xe2\x80\xa6"
+		var evs []c19Ev
+		for _, v := range []string{"*", "X-A", ""} {
+			evs = append(evs, get(U3, "1", "long", v, "304"), get(U3, "1", "stale", v, "200"))
+		}
+		evs = append(evs, post(U3, true))
+		scs = append(scs, c19Scenario{"URI with raw non-ASCII query bytes", evs})
 	}
 	// mixed origin kinds over one Vary spec
 	for _, v := range []string{"X-A", "*", ""} {
